@@ -92,7 +92,28 @@ def track_json(cfg):
             schedule.append({"parallel": pj})
         else:
             schedule.append(task_json(el["task"]))
-    spec = {"version": 2, "description": "generated", "indices": indices or [{"name": "idx-none"}], "corpora": corpora, "challenges": [{"name": "sim-challenge", "default": True, "schedule": schedule}]}
+    challenges = [{"name": "sim-challenge", "default": True, "schedule": schedule}]
+    decoy = cfg.get("decoy")
+    if decoy:
+        # a second challenge that is not raced: the same tasks (equal in everything but their tags).  Filters are applied to every
+        # challenge of a track; what they decide for one challenge must not leak into another
+        def retag(tj):
+            tj = json.loads(json.dumps(tj))
+            if decoy["tags"].get(tj["name"]) is not None:
+                tj["tags"] = decoy["tags"][tj["name"]]
+            else:
+                tj.pop("tags", None)
+            return tj
+
+        dsched = []
+        for el in schedule:
+            if "parallel" in el:
+                dsched.append({"parallel": dict(el["parallel"], tasks=[retag(t) for t in el["parallel"]["tasks"]])})
+            else:
+                dsched.append(retag(el))
+        d = {"name": "decoy-challenge", "default": False, "schedule": dsched}
+        challenges = [d] + challenges if decoy.get("first") else challenges + [d]
+    spec = {"version": 2, "description": "generated", "indices": indices or [{"name": "idx-none"}], "corpora": corpora, "challenges": challenges}
     if not corpora:
         spec.pop("corpora")
     return spec
